@@ -247,14 +247,15 @@ class MemoryCache(Cache):
 
             # checks if there's space for the object
             if (size < self.maxobj_size and total_size < self.maxsize):
+                header_values = [request.headers.get(h, '')
+                                 for h in uricache.selecting_headers]
+
                 # add to the expirations list
                 expiration_time = response.time + self.delay
                 bucket = self.expirations.setdefault(expiration_time, [])
-                bucket.append((size, uri, uricache.selecting_headers))
+                bucket.append((size, uri, header_values))
 
                 # add to the cache
-                header_values = [request.headers.get(h, '')
-                                 for h in uricache.selecting_headers]
                 uricache[tuple(header_values)] = variant
                 self.tot_puts += 1
                 self.cursize = total_size
